@@ -11,3 +11,17 @@ static inline int QDataStream_read_ipv6(QDataStream *s, Q_IPV6ADDR *a, int len) 
 #define RD6(j) if ((j) < k) a->c[j] = (quint8)QBA_AT(s->ba, s->pos + (j));
   RD6(0) RD6(1) RD6(2) RD6(3) RD6(4) RD6(5) RD6(6) RD6(7) RD6(8) RD6(9) RD6(10) RD6(11) RD6(12) RD6(13) RD6(14) RD6(15)
   s->pos += k; return k; }
+static inline void QHostAddress_toIPv6Address(Q_IPV6ADDR *r, const QHostAddress *h) { *r = h->v6; }
+#ifdef QBA_WLOG
+static inline int QDataStream_write_ipv6(QDataStream *s, const Q_IPV6ADDR *a, int len) { MODEL_LIMIT(len == 16, "writeRawData from Q_IPV6ADDR with len != 16");
+  wlog_put(s, a->c[0]); wlog_put(s, a->c[1]); wlog_put(s, a->c[2]); wlog_put(s, a->c[3]); wlog_put(s, a->c[4]); wlog_put(s, a->c[5]); wlog_put(s, a->c[6]); wlog_put(s, a->c[7]);
+  wlog_put(s, a->c[8]); wlog_put(s, a->c[9]); wlog_put(s, a->c[10]); wlog_put(s, a->c[11]); wlog_put(s, a->c[12]); wlog_put(s, a->c[13]); wlog_put(s, a->c[14]); wlog_put(s, a->c[15]); return 16; }
+/* the stream appends to a write log (or starts one) and the log is not absurdly large */
+#define WSTREAM_OK(s) ((s)->wba != 0 && (s)->ba == (s)->wba && (s)->pos == (s)->wba->n && 0 <= (s)->wba->n && (s)->wba->n <= 32 * QBA_MAX && ((s)->wba->wlog || (s)->wba->n == 0) && !(s)->wba->patched)
+#define WSTREAM_FRAME stream->pos, stream->wba->n, stream->wba->wlog, stream->wba->w_set, stream->wba->w_val, stream->wba->owned, __CPROVER_object_whole(stream->wba->own)
+/* j = offset of the witness position inside the bytes appended by this call (valid when 0 <= j < appended) */
+#define W_J ((long)g_w - (long)__CPROVER_old(stream->wba->n))
+#define W_BYTE ((quint32)(unsigned char)stream->wba->w_val)
+#define BE16(v, k) ((((quint32)(v)) >> (8 * (1 - (k)))) & 0xffu)
+#define BE32(v, k) ((((quint32)(v)) >> (8 * (3 - (k)))) & 0xffu)
+#endif
